@@ -12,6 +12,8 @@ TRUSTED_COMMON = [
     "Lean 4.33.0 kernel; axioms allowed: propext, Classical.choice, Quot.sound (audited per theorem on every run)",
     "hand-written Lean model tied to /repo by differential execution (Go harness -tags verif vs compiled Lean driver) on the inputs listed under input_distribution",
     "Go harness, Python orchestrator/generators/oracles, Lean driver's line parser",
+    "facts regenerated from /repo's Go AST on every run: constants and lockset table (harness/cmd/extract), mechanical Go->Lean translation of "
+    "writeToBuf / DecodeChunk / GetLogRecordDiskSize / nextPowerOfTwo / remap arithmetic (harness/cmd/trans; its subset, effect and primitive tables are trusted)",
 ]
 
 
